@@ -34,6 +34,8 @@ def shards(tier, seed):
     out += [("concurrent", mode, cut) for mode in ("tasks", "threads") for cut in range(4)]
     out += [("after-bad-request", path) for path in MP.PATHS]
     out += [("bigparts", path) for path in MP.PATHS]
+    # ... and in an interpreter whose root logger is set to DEBUG (an application that called logging.basicConfig(level=logging.DEBUG))
+    out += [("debug-logging", d) for d in [('helper', 0, 'decoder_collect'), ('after-bad-request', 'decoder_collect')]]
     return out
 
 
@@ -43,6 +45,9 @@ def describe(parts):
 
 def run_shard(desc, tier):
     r = R()
+    if desc[0] == "debug-logging":
+        from ..core import fresh
+        return fresh.debug_logging(__name__, tuple(desc[1]), tier)
     if desc[0] == "bfs":
         corpus = MP.corpus_bfs(tier)[desc[1]:desc[2]]
         c = {"states": 0, "transitions": 0, "traces": 0}
@@ -258,6 +263,11 @@ def finish(merged, tier):
 
 
 def replay(w):
+    if w.get("debug_logging"):
+        import logging as _logging
+        if _logging.getLogger().level != _logging.DEBUG:
+            from ..core import fresh
+            return fresh.replay_debug_logging(__name__, w)
     if w["mode"] == "bigparts":
         rr = run_shard(("bigparts", w["path"]), "quick")
         return bool(rr.viol), {"violations": sorted(rr.viol)}
